@@ -156,19 +156,38 @@ def rule_planners(ctx, P, rc, rd, backends):
         if 'xor' in f.mod.src:
             # every path that avoids the terminator store returns a provably negative value
             from ..guards import upper_bound_at
-            tb = terms[-1].bb
+            tbs = {t_.bb for t_ in terms}            # (a terminator store per way out is as good as one shared store)
             live, work = {f.entry}, [f.entry]
             while work:
                 x = work.pop()
-                if x is tb:
+                if x in tbs:
                     continue
                 for y in x.succs:
                     if y not in live:
                         live.add(y); work.append(y)
-            live.discard(tb)
+            live -= tbs
             ok = True
+            def bound_live(v, blk, depth=0):
+                # the bound where `blk` is entered without having passed a terminator store: through the predecessors that are
+                # still "live" (a block shared by the failing exit and the path behind the store has two kinds of predecessors)
+                hi_ = upper_bound_at(P, f, v, blk, None, 0, live)
+                if hi_ is not None or depth > 3:
+                    return hi_
+                d_ = f.defs.get(v)
+                if d_ is not None and d_.op == 'phi' and d_.bb is blk:
+                    his_ = [bound_live(x_, f.blocks[l_], depth + 1) if not INT_RE.match(x_) else int(x_) for x_, l_ in d_.incoming if f.blocks[l_] in live]
+                    return max(his_) if his_ and all(h_ is not None for h_ in his_) else None
+                his_ = []
+                for p_ in blk.preds:
+                    if p_ not in live:
+                        continue
+                    h_ = upper_bound_at(P, f, v, p_, (p_, blk), 0, live)
+                    if h_ is None:
+                        return None
+                    his_.append(h_)
+                return max(his_) if his_ else None
             for rt in [i for i in f.insts() if i.op == 'ret' and i.bb in live]:
-                hi = upper_bound_at(P, f, rt.ops[0], rt.bb, None, 0, live)
+                hi = bound_live(rt.ops[0], rt.bb)
                 if hi is None or hi >= 0:
                     ok = False
             if ok:
